@@ -1111,7 +1111,11 @@ def sample_hook(E, kind, **kw):
 def recording_schedule(E, total_timesteps, *a, **k):
     """linear_schedule(total_timesteps, ...): the epsilon schedule, one value per step (its values are C18's subject)"""
     t = T.fresh_tensor("schedule", (total_timesteps,), REAL, is_input=False)
-    E.st.ghost.setdefault("schedules", []).append(t)
+    # the exploration schedule is the default one (start=1.0 -> end=0.1); PER builds a second schedule for beta
+    if not a and "start" not in k:
+        E.st.ghost.setdefault("schedules", []).append(t)
+    else:
+        E.st.ghost.setdefault("other_schedules", []).append(t)
     return t
 
 
